@@ -126,3 +126,21 @@ Theorem sites_with_range_correct : forall r exc s, pair_ok r = true ->
                 (j = p + lbn a + 1)%nat /\ (q = p + length (flatten_alt a))%nat.
 Proof. exact sites_with_range_paired. Qed.
 Print Assumptions sites_with_range_correct.
+
+(* ---- code-level tie (docs/py2coq.md): the double `while` loop of AminoAcidSeqRecord.enzymatic_cleave, translated
+        from /repo's current source by harness/translate/py2coq.py (coq/Gen/Py_AminoAcidSeqRecord.v, regenerated on
+        every run; explicit fuel S (length bounds) for either loop), computes exactly Digest.cleave_loop on EVERY
+        boundary list: it never runs out of fuel, never indexes out of range, and returns the model's peptide list.
+        The pinned-text config entries (construction of `sites` = bounds_of, closure update_peptides = Digest.update)
+        are the trusted part; the C10 correspondence compares them on every run. ---- *)
+From MoPep Require Gen.Py_AminoAcidSeqRecord.
+From MoPep Require Import Model.PyRt Proofs.Py2CoqDigestProofs.
+
+Theorem code_enzymatic_cleave_translated : Py_AminoAcidSeqRecord.enzymatic_cleave_untranslated = false.
+Proof. vm_compute. reflexivity. Qed.
+Print Assumptions code_enzymatic_cleave_translated.
+
+Theorem code_enzymatic_cleave_is_model : forall wt water lim s nf bounds,
+  Py_AminoAcidSeqRecord.enzymatic_cleave wt water lim s nf bounds = POk (cleave_loop wt water lim s nf true bounds).
+Proof. exact code_enzymatic_cleave_is_model_l. Qed.
+Print Assumptions code_enzymatic_cleave_is_model.
